@@ -309,7 +309,9 @@ def parse_tlc(outp):
             if line.startswith("Error: Invariant") or "is violated" in line:
                 res.invariant_violated = line.strip()
             if line.startswith("<") and re.search(r">: 0(:0)?\s*$", line):
-                res.coverage_zero.append(line.strip())
+                # (initial-state predicates that are conjuncts of the specification's Init are listed with 0:0 - not actions)
+                if not re.match(r"<\w*Init\w* line ", line):
+                    res.coverage_zero.append(line.strip())
     res.raw = "".join(lines[-400:])
     return res
 
